@@ -258,6 +258,12 @@ def _single_case(ctx, kind):
     fs = rng.choice([20.0, 50.0, 128.0])
     n = rng.randint(2000, 4000)
     y = _signal(ctx, nch, n, fs, nmodes=rng.randint(1, 3))
+    if rng.random() < 0.4:
+        # a static offset on some channels (accelerometers with a DC bias, strain gauges): part of the record; every
+        # transformation of the property acts on it like on the rest of the signal
+        for j in rng.sample(range(nch), rng.randint(1, max(1, nch - 1))):
+            y[:, j] = y[:, j] + rng.choice([-1, 1]) * rng.choice([2.0, 10.0, 100.0]) * float(np.std(y[:, j]))
+        ctx.count("single_record_with_static_offset")
     p = dict(nxseg=rng.choice([128, 256]), sd=rng.choice(["per", "cor"]), pov=rng.choice([0.0, 0.5, 0.75]), br=rng.randint(5, 9),
              ordmax=rng.randint(6, 10), pl_ord=rng.randint(4, 8), ref=None)
     if kind in ("SSIcov", "SSIcovR", "SSIdat") and rng.random() < 0.5:
@@ -326,7 +332,9 @@ def _multi_case(ctx):
     rng = ctx.rng
     nset = rng.randint(2, 3)
     nref = rng.randint(1, 2)
-    nmov = [rng.randint(1, 2) for _ in range(nset)]
+    nmov = [rng.randint(1, 3) for _ in range(nset)]
+    if rng.random() < 0.4:
+        nmov.sort(reverse=True)  # the first setup has the most roving sensors
     fs = rng.choice([20.0, 50.0])
     n = rng.randint(1500, 2500)
     nglob = nref + sum(nmov)
